@@ -164,6 +164,7 @@ pub struct VSlot<C: Config> {
     pub h: Option<Handle<C>>,
     pub kept: Vec<El<C>>,
     pub last_base: usize,
+    pub probed: u8,
 }
 
 pub struct World<C: Config> {
@@ -222,7 +223,7 @@ impl<C: Config> World<C> {
         let mut vs = Vec::new();
         for _ in 0..nvecs {
             let b: Box<V<C>> = Box::new(AnyVec::new_in::<C::E>(C::mem_builder()));
-            vs.push(VSlot { ptr: Box::into_raw(b), h: None, kept: Vec::new(), last_base: 0 });
+            vs.push(VSlot { ptr: Box::into_raw(b), h: None, kept: Vec::new(), last_base: 0, probed: 0 });
         }
         let mut w = World { vs, ext: Vec::new(), notes: Vec::new() };
         for i in 0..w.vs.len() { w.vs[i].last_base = w.base(i); }
@@ -596,6 +597,30 @@ impl<C: Config> World<C> {
         for b in back { self.ext.push(*b.downcast::<C::E>().expect("driver: returned type")); }
         let (cbs, ovf) = reg::take_cbs();
         (out, cbs, ovf)
+    }
+
+    /// next action of the health probe run after an injected fault: release what is outstanding (kept items before
+    /// their iterator), then extend, read and clear every vector, then drop the extracted values
+    pub fn next_probe(&mut self) -> Option<Value> {
+        for i in 0..self.vs.len() {
+            if !self.vs[i].kept.is_empty() {
+                return Some(json!({"op": "item_consume", "v": VNAMES[i], "k": 1, "sink": {"k": "drop", "to": "", "i": 0}}));
+            }
+            match &self.vs[i].h {
+                Some(Handle::Pop(_)) | Some(Handle::Remove(_)) | Some(Handle::SwapRemove(_)) =>
+                    return Some(json!({"op": "consume", "v": VNAMES[i], "sink": {"k": "drop", "to": "", "i": 0}})),
+                Some(Handle::Iters(_)) => return Some(json!({"op": "iter_end", "v": VNAMES[i]})),
+                Some(_) => return Some(json!({"op": "range_drop", "v": VNAMES[i]})),
+                None => {}
+            }
+        }
+        for i in 0..self.vs.len() {
+            if self.vs[i].probed == 0 { self.vs[i].probed = 1; return Some(json!({"op": "push", "v": VNAMES[i], "src": "wrapper"})); }
+            if self.vs[i].probed == 1 { self.vs[i].probed = 2; return Some(json!({"op": "get", "v": VNAMES[i], "i": 0, "kind": "get"})); }
+            if self.vs[i].probed == 2 { self.vs[i].probed = 3; return Some(json!({"op": "clear", "v": VNAMES[i], "path": "erased"})); }
+        }
+        if !self.ext.is_empty() { return Some(json!({"op": "ext_drop", "v": "a"})); }
+        None
     }
 
     /// drop everything: kept items, handles, extracted values, vectors.  Returns the drop callbacks.
